@@ -5,6 +5,8 @@
 mod cases;
 mod gen;
 mod ops;
+mod reader;
+mod stats;
 mod wire;
 
 use std::io::{BufRead, BufWriter, Write};
